@@ -132,6 +132,9 @@ def pool_items(idx, v, who="alice"):
     add("fail/Destroy-active", {"op": "Destroy", "uid": sk_act})
     add("fail/Destroy-denied", {"op": "Destroy", "uid": idx["bob"]})
     add("fail/Activate-active", {"op": "Activate", "uid": sk_act})
+    add("fail/Activate-deactivated", {"op": "Activate", "uid": idx["SymmetricKey/DEACTIVATED"]})
+    add("fail/Activate-compromised", {"op": "Activate", "uid": idx["PrivateKey/COMPROMISED"]})
+    add("fail/Revoke-deactivated", {"op": "Revoke", "uid": idx["PublicKey/DEACTIVATED"], "code": "SUPERSEDED"})
     add("fail/Activate-opaque", {"op": "Activate", "uid": idx["OpaqueData/NONE"]})
     add("fail/Revoke-preactive", {"op": "Revoke", "uid": idx["PublicKey/PRE_ACTIVE"], "code": "SUPERSEDED"})
     add("fail/Create-no-length", {"op": "Create", "attrs": [["Cryptographic Algorithm", "AES"], ["Cryptographic Usage Mask", 12]]})
